@@ -353,9 +353,12 @@ struct Trap {
     bool isException = false;
     bool allocTrip = false;
     char const* allocWhat = nullptr;
+    uint64_t userCalls = 0; // special-member calls of instrumented types seen when the handler was entered
 };
 
 inline Trap g_trap;
+// number of special-member calls of the instrumented element types so far (installed by tracked.hpp)
+inline uint64_t (*g_user_calls)() = nullptr;
 inline int g_libDepth = 0; // >0 while a library (SUT) call is on the stack: allocator tripwire armed
 
 enum class Outcome { completed, trapped, alloc_tripped };
